@@ -137,6 +137,13 @@ def op_table():
         cf.reorder(np.array(idx)); m.select(idx)
     add("reorder", lambda m: m.nrows >= 2, f_reorder)
 
+    def f_reorder_own(cf, m, w):
+        # the permutation is itself a column of the table (an integer "order" column written earlier): cf.reorder(cf.a)
+        perm = np.roll(np.arange(m.nrows), -1)
+        cf.addcolumn(perm.copy(), "a"); m.cols["a"] = perm.tolist()
+        cf.reorder(cf.a); m.select(perm.tolist())
+    add("reorder_by_a_column_of_the_table", lambda m: m.nrows >= 3 and "a" in m.cols, f_reorder_own)
+
     def f_copy(cf, m, w):
         return ("copy", cf.copy())
     add("copy_continue_on_copy", lambda m: True, f_copy)
@@ -156,6 +163,11 @@ def op_table():
         rows = list(range(m.nrows))
         return ("copyrows", cf.copyrows(np.array(rows)), rows)
     add("copyrows_every_row", lambda m: m.nrows >= 1, f_copyrows_all)
+
+    def f_copyrows_slice(cf, m, w):
+        rows = list(range(0, max(1, m.nrows - 1)))
+        return ("copyrows", cf.copyrows(slice(0, max(1, m.nrows - 1))), rows)
+    add("copyrows_slice", lambda m: m.nrows >= 1, f_copyrows_slice)
 
     def f_copyrows_mask(cf, m, w):
         mask = np.ones(m.nrows, bool); mask[m.nrows - 1] = False
